@@ -17,6 +17,11 @@ import NumbersModel.Gen.TrMerge
 import NumbersModel.Gen.TrEdit
 import NumbersModel.Gen.TrCache
 import NumbersModel.Gen.TrTok
+import NumbersModel.Gen.TrLoad
+import NumbersModel.Gen.TrIwa
+import NumbersModel.Gen.TrCellRec
+import NumbersModel.Drv.CellRecord
+import NumbersModel.Drv.Loader
 import NumbersModel.Drv.Tokenizer
 import NumbersModel.Drv.Addressing
 import NumbersModel.Model.DateFmt
@@ -305,6 +310,53 @@ def handlePyOps : List String → Option String
     pure (showPyM (fun (l : List Int) => " ".intercalate (l.map (fun i => s!"{i}"))) (PyT.range3 a b c))
   | _ => none
 
+/-- `loader load f <scenario>` (the request format of Drv/Loader.lean): the scripted / recorded externals go through the
+    TRANSLATED `ObjectStore.__init__`; the reply is what it leaves behind in the model's terms (`_max_id`, distinct
+    identifiers, distinct file names).  Only the variant `f` (the code as it is) has a translation. -/
+def handleTrLoader : List String → Option String
+  | "load" :: rest =>
+    match scenarioP.run rest with
+    | some ((v, x), []) =>
+      if v = Loader.fixed then
+        some (showPyM (fun (r : Unit × Int × Loader.Store) =>
+          s!"{r.2.1.toNat} {r.2.2.objs.eraseDups.length} {r.2.2.files.eraseDups.length}") (load x ()))
+      else none
+    | _ => none
+  | _ => none
+
+/-- the chunk framing of iwafile.py through the TRANSLATED definitions; same requests (and recorded snappy / protobuf tables)
+    as Drv/Iwa.lean: `isiwa <hex>`, `decompress <hex> T …`, `framestream <hex> T …`; `archinfo <hex> T …` is
+    `get_archive_info_and_remainder` (reply: header id, length of the remainder) -/
+def handleTrIwa (ws : List String) : Option String :=
+  let (args, tws) := splitT ws
+  match parseTables (tws.length + 1) tws {} with
+  | none => none
+  | some t =>
+    let e := tableExt t
+    match args with
+    | ["isiwa", d] => do
+      let d ← parseBytesBig d
+      pure (showPyM (fun b => if b then "1" else "0") (is_iwa_file d.toList))
+    | ["decompress", d] => do
+      let d ← parseBytesBig d
+      pure (showPyM showBytesBig ((decompress_all e.uncompress d.toList).map List.flatten))
+    | ["framestream", s] => do
+      let s ← parseBytesBig s
+      pure (showPyM showBytesBig (chunk_to_buffer e.compress s.toList))
+    | ["archinfo", d] => do
+      let d ← parseBytesBig d
+      pure (showPyM (fun (p : THeader × Bytes) => s!"{p.1.id} {p.2.length}")
+        (get_archive_info_and_remainder e.parseInfo d.toList))
+    | _ => none
+
+/-- `cell dec <hex>` (the request of Drv/CellRecord.lean): the field walk of `Cell._from_storage` as TRANSLATED from the source,
+    then the model's dispatch / `_extras` (`CellRecord.finishDecode`) -/
+def handleTrCell : List String → Option String
+  | ["dec", b] => do
+    let b ← parseBytes b
+    pure (showPyM showDecoded (from_storage_fields CellRecord.readD128 CellRecord.readDouble b >>= CellRecord.finishDecode b))
+  | _ => none
+
 def trDispatch (line : String) : String :=
   let ws := (line.splitOn " ").filter (· ≠ "")
   let r : Option String := match ws with
@@ -323,6 +375,9 @@ def trDispatch (line : String) : String :=
     | "tokm" :: rest => handleTrTokMethod rest
     | "token" :: rest => handleTrToken rest
     | "tok" :: rest => handleTrTokenize rest
+    | "loader" :: rest => handleTrLoader rest
+    | "iwa" :: rest => handleTrIwa rest
+    | "cell" :: rest => handleTrCell rest
     | _ => none
   match r with
   | some s => s
